@@ -107,6 +107,45 @@ def same_bytes_clause(rep: Report):
         else:
             rep.traces += 1
     rep.extra['same_bytes_cases'] = len(seen)
+    # the op in every syntactic context (after one- and two-argument pushes, size-prefixed operands, inside every kind
+    # of block, hoisted condition, macro and comptime bodies): NOPn names on the old VM, the fork's name / aliases on
+    # the upgraded VM, identical bytes (AsmMC family nopctx)
+    res = tlc.run_tlc('AsmMC', asmcheck.CFG % 'nopctx', workers=4, timeout=1200, heap='4g')
+    rep.add_tlc(res, 'mc:AsmMC/nopctx')
+    n_ctx = 0
+    for r in res.records:
+        if not (isinstance(r, dict) and r.get('k') == 'asm' and r['ok']):
+            continue
+        n_ctx += 1
+        expect = bytes(r['bytes'])
+        codes = sorted({int(t[3:]) for t in r['toks'] if t.startswith('NOP')})
+        rep.case('nopctx/' + ' '.join(r['toks']))
+        problems = []
+        src = ' '.join(r['toks'])
+        st, val = asmcheck.with_timeout(lambda: ts.compile_script(src), 5)
+        if st != 'ok' or val != expect:
+            problems.append(f'old VM: {src!r} -> {val.hex() if st == "ok" else val}, expected {expect.hex()}')
+        with softfork.installed({c: 'never' for c in codes}, {c: [f'FKA{c}', f'OP_FKB{c}'] for c in codes}):
+            for style in range(4):
+                name = lambda c: [f'OP_FORK{c}', f'op_fork{c}', f'FKA{c}', f'OP_FKB{c}'][style]
+                # the generated compiler handler of a fork reads an unsigned decimal count
+                toks2 = []
+                for i, t in enumerate(r['toks']):
+                    if t.startswith('NOP'):
+                        toks2.append(name(int(t[3:])))
+                    elif i and r['toks'][i - 1].startswith('NOP') and t.startswith('d-'):
+                        toks2.append(f'd{256 + int(t[1:])}')
+                    else:
+                        toks2.append(t)
+                src2 = ' '.join(toks2)
+                st, val = asmcheck.with_timeout(lambda: ts.compile_script(src2), 5)
+                if st != 'ok' or val != expect:
+                    problems.append(f'upgraded VM: {src2!r} -> {val.hex() if st == "ok" else val}, expected {expect.hex()}')
+        if problems:
+            rep.violation(f'soft-fork op in context: ' + '; '.join(problems)[:700], {'kind': 'nopctx', 'toks': r['toks']})
+        else:
+            rep.traces += 1
+    rep.extra['same_bytes_context_cases'] = n_ctx
 
 
 def main(tier: str, seed: int) -> int:
@@ -120,7 +159,9 @@ def main(tier: str, seed: int) -> int:
                 'unassigned codes with forks installed at random free codes, validated by TLC (TapeVM.OpFork). compile / decompile: '
                 'for NOP codes 92, 200, 255 x count bytes 0,1,127,128,255 the bytes Asm.tla assigns must be produced by NOPn '
                 '(d and x spellings) on the old VM and by the op name, lower case, bare and both aliases on the upgraded VM, and '
-                'decompile / recompile must round-trip on both.')
+                'decompile / recompile must round-trip on both; and the op in every syntactic context (AsmMC family nopctx: after one- and '
+                'two-argument pushes and every operand kind, inside every block kind, hoisted condition, macro and comptime '
+                'bodies) compiles to the bytes Asm.tla assigns, by NOPn on the old VM and by name / aliases on the upgraded VM.')
     rep.assumptions = ['the forked op is of the documented shape: reads the count byte, removes count items, may raise']
     quick = tier == 'quick'
     if quick:
